@@ -65,6 +65,9 @@ def _mk():
     S["plain_arrays_named_like_generated"] = hdr + parr("A1", "float", 2) + parr("A2", "float", 2) + parr("A0", "int", 2) + parr("p0", "float", 2) + [
         "Gate(A1) | %(m)s", "Gate(A2, k=A0) | %(m)s", "Gate(p0, A2, j=A1) | %(m)s"]
     S["plain_arrays_named_like_generated_kw"] = hdr + parr("A1", "float", 2) + parr("A2", "float", 2) + ["Gate(k=A1) | %(m)s", "Gate(k=A2) | %(m)s", "Gate(A1, A2, A1) | %(m)s"]
+    # several features in one place: a p-array indexed by a loop variable next to the whole p-array and a template parameter
+    S["parray_indexed_by_loop_var_in_template"] = hdr + parr("p0", "float", 3) + parr("p1", "int", 3) + [
+        "for int i in 0:2", "    Rgate(p0[i], {a}) | i", "    Dgate(p0, p0[i+1]*2, k=2*{a}+1, j=p1) | [i, p1[i]+50]"]
     # a bare p (no digits) is an ordinary name
     # names that Python's int() would read as numbers but that are not "p followed by digits" (digit-group underscores, ...)
     S["pnames_with_digit_groups"] = hdr + parr("p1_0", "float", 2) + parr("p0_1", "int", 2) + parr("p1_", "float", 2) + parr("p10", "float", 2) + [
